@@ -50,7 +50,7 @@ class Die(BaseException):
 class Box(object):
     """state of the wrappers inside a child"""
     def __init__(self, root, die_at=None, exdev=False, record=True):
-        self.root = os.path.realpath(root) + os.sep
+        self.root = os.path.abspath(root) + os.sep
         self.die_at = die_at
         self.exdev = exdev
         self.points = 0
@@ -60,8 +60,9 @@ class Box(object):
         self.record = record
 
     def mine(self, p):
+        # by the path the code used, not by what a symbolic link resolves to
         try:
-            return os.path.realpath(os.fspath(p)).startswith(self.root)
+            return os.path.abspath(os.fspath(p)).startswith(self.root)
         except TypeError:
             return False
 
@@ -84,7 +85,7 @@ class Box(object):
             r = fn()
         finally:
             after = [self.size(p) for p in paths]
-            ev = {'k': kind, 'p': [os.path.realpath(p) for p in paths], 'before': before, 'after': after}
+            ev = {'k': kind, 'p': [os.path.abspath(p) for p in paths], 'before': before, 'after': after}
             if extra:
                 ev.update(extra)
             self.events.append(ev)
@@ -133,7 +134,7 @@ def install(box):
     def w_open(file, mode='r', *a, **kw):
         if isinstance(file, int) or not box.mine(file):
             return _real_open(file, mode, *a, **kw)
-        path = os.path.realpath(file)
+        path = os.path.abspath(file)
         kind = 'w' if 'w' in mode or 'x' in mode else 'a' if 'a' in mode else 'r+' if '+' in mode else 'r'
         name = {'w': 'openW', 'a': 'openA', 'r': 'openR', 'r+': 'openRW'}[kind]
         if kind == 'r':
@@ -145,7 +146,7 @@ def install(box):
             if not (box.mine(src) or box.mine(dst)):
                 return real(src, dst, *a, **kw)
             # simulated second file system: every directory of the scenario is its own device
-            cross = box.exdev and os.path.realpath(os.path.dirname(src)) != os.path.realpath(os.path.dirname(dst))
+            cross = box.exdev and os.path.dirname(os.path.abspath(src)) != os.path.dirname(os.path.abspath(dst))
             def go():
                 if cross:
                     raise OSError(errno.EXDEV, 'Invalid cross-device link (simulated)')
@@ -390,7 +391,8 @@ def sym(old, new, x):
     return 'X' + x.hex()
 
 class Scenario(object):
-    def __init__(self, root, kind, sizename, old_state, new_state, cfg, outcome='flush'):
+    def __init__(self, root, kind, sizename, old_state, new_state, cfg, outcome='flush', tvariant='regular'):
+        self.tvariant = tvariant    # 'regular' | 'symlink-same-dir' | 'symlink-other-dir': what the configured path is
         self.root = root; self.kind = kind; self.sizename = sizename
         self.old_state = old_state; self.new_state = new_state
         self.cfgname, self.tmp, self.backup, self.allow_empty, self.exdev = cfg
@@ -400,22 +402,35 @@ class Scenario(object):
     def bind(self, root):
         self.root = root
         self.target = os.path.join(root, 'conf', self.kind + '.db')
+        self.linkdest = None
+        if self.tvariant == 'symlink-same-dir':
+            self.linkdest = os.path.join(root, 'conf', self.kind + '.real')
+        elif self.tvariant == 'symlink-other-dir':
+            self.linkdest = os.path.join(root, 'elsewhere', self.kind + '.real')
     def describe(self):
         return {'caller': self.kind, 'size': self.sizename, 'old_state': self.old_state, 'new_state': self.new_state,
                 'config': self.cfgname, 'tmpDir': self.tmp, 'backupDir': self.backup, 'allowEmptyOverwrite': self.allow_empty,
-                'exdev': self.exdev, 'outcome': self.outcome}
+                'exdev': self.exdev, 'outcome': self.outcome, 'target_path': self.tvariant}
     def tmpdir(self):
         return None if self.tmp is None else os.path.join(self.root, self.tmp)
     def backupdir(self):
         return None if self.backup is None else (self.backup if self.backup.startswith('/') else os.path.join(self.root, self.backup))
 
-def reset_dir(sc, old_bytes):
-    for sub in ('conf', 'tmp', 'backup'):
+DIRS = ('conf', 'tmp', 'backup', 'elsewhere')
+
+def reset_dir(sc, old_bytes, plain=False):
+    """fresh directories; the old version is put where the configured path leads (a regular file, or the
+    destination of the symbolic link the configured path is)"""
+    for sub in DIRS:
         d = os.path.join(sc.root, sub)
         shutil.rmtree(d, ignore_errors=True)
         os.makedirs(d)
+    dest = sc.target
+    if sc.linkdest is not None and not plain:
+        dest = sc.linkdest
+        os.symlink(os.path.basename(dest) if sc.tvariant == 'symlink-same-dir' else dest, sc.target)
     if old_bytes is not None:
-        with _real_open(sc.target, 'wb') as f:
+        with _real_open(dest, 'wb') as f:
             f.write(old_bytes)
 
 def temp_role(sc, p):
@@ -435,11 +450,11 @@ def snapshot(sc):
             return None
     got = {'T': rd(sc.target), 't': None, 'b': None, 's': None}
     stray = []
-    for sub in ('conf', 'tmp', 'backup'):
+    for sub in DIRS:
         d = os.path.join(sc.root, sub)
         for fn in sorted(os.listdir(d)):
             p = os.path.join(d, fn)
-            if p == sc.target:
+            if p == sc.target or p == sc.linkdest:
                 continue
             if TEMP_RE.match(fn):
                 r = temp_role(sc, p) or ('t' if got['t'] is None else 's')
@@ -499,8 +514,9 @@ def run_load(b, sc, load):
         return {'ok': False, 'err': '%s: %s' % (type(e).__name__, e), 'reads': box.reads}
 
 def role(sc, p, order):
-    p = os.path.realpath(p)
-    if p == os.path.realpath(sc.target): return 'T'
+    p = os.path.abspath(p)
+    if p == os.path.abspath(sc.target): return 'T'
+    if sc.linkdest is not None and p == os.path.abspath(sc.linkdest): return 'L'
     fn = os.path.basename(p)
     if TEMP_RE.match(fn):
         r = temp_role(sc, p)
@@ -533,7 +549,7 @@ def explore_scenario(b, callers, sc, loader_cache, sample_points=None):
     """trace + kill at every crash point; returns (Case, model input line, names case or None, observed state indices)"""
     prep = getattr(callers, sc.kind)
     # old bytes: what an un-crashed flush of the old state writes (in a clean directory)
-    reset_dir(sc, None)
+    reset_dir(sc, None, plain=True)
     old_bytes = None
     set_defaults(b, sc)
     if sc.kind == 'flat':
@@ -559,7 +575,9 @@ def explore_scenario(b, callers, sc, loader_cache, sample_points=None):
     roles = [[role(sc, p, order) for p in e['p']] for e in events]
     writes = [(bytes.fromhex(e['d']), (e['after'][0] or 0) - (e['before'][0] or 0)) for e, rl in zip(events, roles)
               if e['k'] == 'write' and rl[0] == 't']
-    new_bytes = b''.join(d for d, _ in writes)
+    # the new version = everything the caller wrote (normally all of it goes to the temp file; a caller or an
+    # AtomicFile that writes to the target directly is still judged against the full new content)
+    new_bytes = b''.join(bytes.fromhex(e['d']) for e, rl in zip(events, roles) if e['k'] == 'write' and rl[0] in ('t', 'T'))
     # names seen
     seen_path = {}
     now = 0
@@ -622,7 +640,7 @@ def explore_scenario(b, callers, sc, loader_cache, sample_points=None):
             res = loader_cache[key]
             if not res.get('ok'):
                 problems.append('%s: the loader rejects the file found on disk: %s' % (where, res.get('err')))
-            bad_reads = [x for x in res.get('reads', []) if os.path.realpath(x) != os.path.realpath(sc.target)]
+            bad_reads = [x for x in res.get('reads', []) if os.path.abspath(x) != os.path.abspath(sc.target)]
             if bad_reads:
                 problems.append('%s: the loader read %r (not the target)' % (where, bad_reads))
     for tk in (token, token2):
@@ -649,7 +667,7 @@ def explore_scenario(b, callers, sc, loader_cache, sample_points=None):
         nl = '\t'.join(['names', wire.enc(sc.target), wire.enc_opt(td), wire.enc_opt(bd), wire.enc(token), wire.enc(tok2), wire.enc(str(now))])
         have = [seen_path.get('t'), seen_path.get('b'), seen_path.get('s')]
         names = (nl, have)
-    tags = [sc.kind, 'size:' + sc.sizename, 'cfg:' + sc.cfgname, sc.outcome]
+    tags = [sc.kind, 'size:' + sc.sizename, 'cfg:' + sc.cfgname, sc.outcome, 'target:' + sc.tvariant]
     if any(o.startswith('openW.b') for o in ops): tags.append('backup-made')
     if sc.outcome == 'flush' and not any(o.startswith('openA.T') for o in ops): tags.append('skip-empty')
     if old_bytes is None: tags.append('no-old-file')
@@ -702,6 +720,18 @@ def scenarios(ctx, root, r, thorough):
                         if sizename == 'same' and r.random() < 0.7:
                             new = old
                         out.append(Scenario(root, kind, sizename, old, new, cfg))
+        # the configured path is a symbolic link (same directory / another directory), with and without an old file
+        for tv in ('symlink-same-dir', 'symlink-other-dir'):
+            for sizename, n_old, n_new in (('smaller', 3, 1), ('larger', 1, 3), ('created', None, 2)):
+                if kind == 'flat' and sizename == 'created':
+                    continue
+                for cfg in ((CONFIGS[0], CONFIGS[1]) if thorough or sizename != 'larger' else (CONFIGS[0],)):
+                    if kind == 'flat':
+                        st = gen_state(r, kind, 4)
+                        out.append(Scenario(root, kind, sizename, st, st, cfg, tvariant=tv))
+                    else:
+                        out.append(Scenario(root, kind, sizename, None if n_old is None else gen_state(r, kind, n_old),
+                                            gen_state(r, kind, n_new), cfg, tvariant=tv))
         # contents larger than the runtime's write buffer: part of the temp file reaches the disk before close()
         if kind in ('users', 'registry', 'flat'):
             for cfg in (CONFIGS[0], CONFIGS[1]) + ((CONFIGS_X[0],) if thorough else ()):
@@ -850,7 +880,8 @@ def replay(ctx, path):
     root = os.path.join(bot.scratch(), 'c17r')
     os.makedirs(root, exist_ok=True)
     cfg = (inp['config'], inp['tmpDir'], inp['backupDir'], inp['allowEmptyOverwrite'], inp['exdev'])
-    sc = Scenario(root, inp['caller'], inp['size'], inp['old_state'], inp['new_state'], cfg, inp.get('outcome', 'flush'))
+    sc = Scenario(root, inp['caller'], inp['size'], inp['old_state'], inp['new_state'], cfg, inp.get('outcome', 'flush'),
+                  inp.get('target_path', 'regular'))
     c2, line, names, seen = explore_scenario(b, callers, sc, {})
     print('implementation now: oracle_ok=%s %s' % (c2.oracle_ok, c2.oracle_msg))
     print('implementation calls;states now:', c2.impl[:2000])
